@@ -114,6 +114,17 @@ func odtAlphabet() []odtKind {
 		odtHeading("hc", "", "P1", 2, false), // automatic style P1, parent Heading_20_2
 		odtHeading("ho", "", "", 3, false),
 		odtHeading("hspan", "heading-span-mixed", "Heading_20_1", 1, true),
+		// a style shared between blocks of different kinds: every block is judged by its own element
+		odtHeading("hbody", "", "Text_20_body", 2, false), // text:h that uses the body paragraph style of p1
+		{"lsp", nil, func(g *gen, o odtOpt) ([]odtw.Block, []xBlock) {
+			a := g.tok() // list paragraph with the automatic style P4
+			l := odtw.List{Style: "L1", Items: []odtw.Item{item(odtw.Para{Style: "P4", Content: []odtw.Inline{odtw.Text(a)}})}}
+			return []odtw.Block{l}, []xBlock{{kind: kItem, level: 0, atoms: atomsOf(a)}}
+		}},
+		{"pp4", nil, func(g *gen, o odtOpt) ([]odtw.Block, []xBlock) {
+			a := g.tok() // body paragraph with the same automatic style P4
+			return []odtw.Block{odtw.Para{Style: "P4", Content: []odtw.Inline{odtw.Text(a)}}}, []xBlock{{kind: kPara, atoms: atomsOf(a)}}
+		}},
 		// style parent chains that carry two different default-outline-levels: the heading's own
 		// text:outline-level (equal to its own / nearest style's level) is the authored level
 		odtHeading("hown", "heading-own-vs-parent", "Sect", 3, false),   // Sect: level 3, parent Heading_20_1
@@ -279,6 +290,7 @@ func buildOdt(alpha []odtKind, seq []int, o odtOpt) odtCase {
 	auto := []odtw.Style{
 		{Name: "P1", Parent: "Heading_20_2", Italic: true},
 		{Name: "P3", Parent: "Sect", Italic: true},
+		{Name: "P4", Parent: "Text_20_body", Italic: true},
 		{Name: "T1", Family: "text", Bold: true},
 		{Name: "T2", Family: "text", Italic: true},
 	}
